@@ -94,3 +94,43 @@ pub proof fn lemma_dedup_len(s: Seq<&String>)
     }
 }
 } // verus!
+verus! {
+/// `Ord for String` (byte-wise lexicographic): only its consistency with the abstract total order `str_le` is known
+pub open spec fn str_cmp(a: Seq<char>, b: Seq<char>) -> core::cmp::Ordering {
+    if a == b { core::cmp::Ordering::Equal } else if str_le(a, b) { core::cmp::Ordering::Less } else { core::cmp::Ordering::Greater }
+}
+pub assume_specification [ <String as Ord>::cmp ] (a: &String, b: &String) -> (r: core::cmp::Ordering)
+    ensures r == str_cmp(a@, b@);
+pub broadcast axiom fn ax_str_le_total(a: Seq<char>, b: Seq<char>) ensures #![trigger str_le(a, b)] str_le(a, b) || str_le(b, a);
+/// the comparison closure handed to `sort_by` is modelled as a function `sort_cmp(f)` of the two element values (ASSUMED: an
+/// `Fn(&T,&T) -> Ordering` closure without interior mutability is deterministic); each of its results satisfies the closure's contract
+pub uninterp spec fn sort_cmp<T, F>(f: F) -> spec_fn(T, T) -> core::cmp::Ordering;
+/// `slice.sort_by(cmp)` (stable): the result is a permutation of the input, and no element compares Greater than a later one
+#[verifier::external_body]
+pub fn slice_sort_by<T, F: Fn(&T, &T) -> core::cmp::Ordering>(v: &mut [T], cmp: F)
+    requires forall|a: T, b: T| cmp.requires((&a, &b))
+    ensures final(v)@.len() == old(v)@.len(),
+        exists|p: Seq<int>| is_perm(p, old(v)@.len() as int) && forall|i: int| 0 <= i < final(v)@.len() ==> #[trigger] final(v)@[i] == old(v)@[p[i]],
+        forall|a: T, b: T| cmp.ensures((&a, &b), #[trigger] sort_cmp::<T, F>(cmp)(a, b)),
+        forall|i: int, j: int| 0 <= i <= j < final(v)@.len() ==> sort_cmp::<T, F>(cmp)(#[trigger] final(v)@[i], #[trigger] final(v)@[j]) != core::cmp::Ordering::Greater,
+{ unimplemented!() }
+/// `s.iter().zip(s.iter().skip(1))`: the pairs of neighbouring elements, in order
+#[verifier::external_body]
+pub fn adjacent_pairs<'a, T>(v: &'a [T]) -> (r: Vec<(&'a T, &'a T)>)
+    ensures r@.len() == (if v@.len() == 0 { 0 } else { v@.len() - 1 }),
+        forall|i: int| 0 <= i < r@.len() ==> *(#[trigger] r@[i]).0 == v@[i] && *r@[i].1 == v@[i + 1]
+{ unimplemented!() }
+} // verus!
+verus! {
+/// `s.splitn(n, sep).collect::<Vec<&str>>()`: the parts are an uninterpreted function of the string (at most n of them)
+pub uninterp spec fn splitn_spec(s: Seq<char>, n: int, sep: char) -> Seq<Seq<char>>;
+#[verifier::external_body]
+pub fn str_splitn<'a>(s: &'a str, n: usize, sep: char) -> (r: Vec<&'a str>)
+    ensures r@.len() == splitn_spec(s@, n as int, sep).len(), r@.len() <= n,
+        forall|i: int| 0 <= i < r@.len() ==> (#[trigger] r@[i])@ == splitn_spec(s@, n as int, sep)[i]
+{ unimplemented!() }
+pub assume_specification<'a> [ <&'a str as PartialEq<String>>::ne ] (a: &&'a str, b: &String) -> (r: bool)
+    ensures r == (a@ != b@);
+pub assume_specification<'a> [ <&'a str as PartialEq<String>>::eq ] (a: &&'a str, b: &String) -> (r: bool)
+    ensures r == (a@ == b@);
+} // verus!
